@@ -6,11 +6,9 @@
 import Curtsies.Generated.Heap
 namespace Curtsies
 
-/-- TABLE: the mutators the live `FrozenAttributes` lets through (the call returns instead of raising) are
-    exactly those the model lets through (`opCmd … (.attsMutate _ _ name _)` answers `.err` unless
-    `name = "__init__"`, `C13_guards_partial` / `C13_init_witness`): `__init__` and nothing else.
-    Reverting the guard of any other mutator in /repo, or repairing D24, makes this `decide` fail. -/
-theorem C13_guards_table :
-    Generated.frozenUnguarded = Generated.dictMutators.filter (fun n => n == "__init__") := by decide
+/-- TABLE: the live `FrozenAttributes` lets NO mutator of `dir(dict)` through (every call raises), as the
+    model says (`C13_guards`). Reverting the guard of any mutator in /repo - `__init__` (D24) included -
+    makes this `decide` fail. -/
+theorem C13_guards_table : Generated.frozenUnguarded = [] := by decide
 
 end Curtsies
